@@ -21,7 +21,8 @@
 //	          | return e, ...
 //	expr      x | literal int | true | false | nil (error result) | package constant / []byte variable / errors.New variable
 //	          | len(e) | e[i] | e[lo:hi] | e[:hi] | e[lo:] | e[:] | make([]byte, n) | []byte(stringConstant)
-//	          | bytes.Equal(a, b) | check.IfNil(interfaceParameter) | F(args) with F in the whitelist
+//	          | bytes.Equal(a, b) | bytes.HasPrefix(a, b) | bytes.HasSuffix(a, b) | bytes.Compare(a, b) == 0 | != 0
+//	          | check.IfNil(interfaceParameter) | F(args) with F in the whitelist
 //	          | append(a, b...) on []byte (VALUE of the result only) | big.NewInt(k).SetUint64(e).Bytes()
 //	          | S{} | S{f: e, ...} | v.f | p.f (p *S) | !e | e && e | e || e (right operand evaluated conditionally)
 //	          | e == e | != | < | <= | > | >= | e + e | - | * | e & e | e | e (unsigned)
@@ -831,6 +832,42 @@ func (t *tr) bigUint64Bytes(x *ast.CallExpr) ast.Expr {
 	return c2.Args[0]
 }
 
+// bytesCompare: e is the call bytes.Compare(a, b)
+func (t *tr) bytesCompare(e ast.Expr) (ast.Expr, ast.Expr, bool) {
+	for {
+		p, ok := e.(*ast.ParenExpr)
+		if !ok {
+			break
+		}
+		e = p.X
+	}
+	call, ok := e.(*ast.CallExpr)
+	if !ok || len(call.Args) != 2 || call.Ellipsis != token.NoPos {
+		return nil, nil, false
+	}
+	se, ok := call.Fun.(*ast.SelectorExpr)
+	if !ok || se.Sel.Name != "Compare" || t.pkgOf(se.X) != "bytes" {
+		return nil, nil, false
+	}
+	return call.Args[0], call.Args[1], true
+}
+
+func isZeroLit(e ast.Expr) bool {
+	for {
+		p, ok := e.(*ast.ParenExpr)
+		if !ok {
+			break
+		}
+		e = p.X
+	}
+	lit, ok := e.(*ast.BasicLit)
+	if !ok || lit.Kind != token.INT {
+		return false
+	}
+	n, err := strconv.ParseUint(lit.Value, 0, 64)
+	return err == nil && n == 0
+}
+
 func isByteSliceType(e ast.Expr) bool {
 	at, ok := e.(*ast.ArrayType)
 	if !ok || at.Len != nil {
@@ -904,7 +941,7 @@ func (t *tr) typeOf(e ast.Expr) gtype {
 		}
 		if se, ok := x.Fun.(*ast.SelectorExpr); ok {
 			p := t.pkgOf(se.X)
-			if p == "bytes" && se.Sel.Name == "Equal" {
+			if p == "bytes" && (se.Sel.Name == "Equal" || se.Sel.Name == "HasPrefix" || se.Sel.Name == "HasSuffix") {
 				return gtype{k: kBool}
 			}
 			if p == t.g.modPath+"/check" && se.Sel.Name == "IfNil" {
@@ -1194,13 +1231,14 @@ func (t *tr) emitCall(x *ast.CallExpr, ty gtype) string {
 	}
 	if se, ok := x.Fun.(*ast.SelectorExpr); ok {
 		p := t.pkgOf(se.X)
-		if p == "bytes" && se.Sel.Name == "Equal" {
+		if p == "bytes" && (se.Sel.Name == "Equal" || se.Sel.Name == "HasPrefix" || se.Sel.Name == "HasSuffix") {
 			if len(x.Args) != 2 {
-				t.refuse(x, "bytes.Equal with %d arguments", len(x.Args))
+				t.refuse(x, "bytes.%s with %d arguments", se.Sel.Name, len(x.Args))
 			}
 			a := t.emitBaseBytes(x.Args[0])
 			b := t.emitBaseBytes(x.Args[1])
-			return fmt.Sprintf("(bytes_equal %s %s)", a, b)
+			fn := map[string]string{"Equal": "bytes_equal", "HasPrefix": "bytes_has_prefix", "HasSuffix": "bytes_has_suffix"}[se.Sel.Name]
+			return fmt.Sprintf("(%s %s %s)", fn, a, b)
 		}
 		if p == t.g.modPath+"/check" && se.Sel.Name == "IfNil" {
 			if len(x.Args) == 1 {
@@ -1264,6 +1302,20 @@ func (t *tr) emitBinary(x *ast.BinaryExpr, ty gtype) string {
 		}
 		return t.bind(fmt.Sprintf("(if %s then go_ret true else %s)", l, inner))
 	case token.EQL, token.NEQ, token.LSS, token.LEQ, token.GTR, token.GEQ:
+		// bytes.Compare(a, b) == 0 / != 0 (either order): "The result will be 0 if a == b"; any other use of
+		// bytes.Compare is refused
+		if x.Op == token.EQL || x.Op == token.NEQ {
+			for _, pair := range [][2]ast.Expr{{x.X, x.Y}, {x.Y, x.X}} {
+				if a, b, ok := t.bytesCompare(pair[0]); ok && isZeroLit(pair[1]) {
+					l := t.emitBaseBytes(a)
+					r := t.emitBaseBytes(b)
+					if x.Op == token.EQL {
+						return fmt.Sprintf("(bytes_equal %s %s)", l, r)
+					}
+					return fmt.Sprintf("(negb (bytes_equal %s %s))", l, r)
+				}
+			}
+		}
 		ot := t.unify(x, x.X, x.Y)
 		if ot.k == kUntyped {
 			ot = gtype{k: kInt}
